@@ -37,6 +37,9 @@ CH["C04"] = dict(level="exploration", design="3/C04", technique="deterministic s
 CH["C20"] = dict(level="exploration", design="3/C20", technique="deterministic simulation: public API with the real sampler goroutine inside a testing/synctest bubble (fake clock), scripted counter source with stalls, reference model of the statement",
    text="Seeded search over (time, counter) histories (growth, bursts, stalls, jumps, resets, wrap-around) x source stalls that make the sampling instants irregular x Average() calls, 45 s to 2 h of simulated time per run. The meter runs through its public API with its real 10 s sampler goroutine on a fake clock. Oracle: for gap-free sampling of a non-decreasing counter every window reports exactly increase/W when due and is unchanged otherwise (x8/1000 for kbit/s); otherwise a changed rate must equal increase/W against some earlier observation at least W old (0 when the counter is not above it); always finite and non-negative; Average = total increase / time since the first non-zero Average() observation; getters before Start are refused, none panics afterwards. Sampling, not proof.",
    note="Trusted: testing/synctest fake clock (go1.26.8); the model reads the statement, not the code (nominal window length, modular signed increase).")
+CH["C13"] = dict(level="exploration", design="3/C13", technique="deterministic simulation: client and server Conn through the real handshake on a sim transport, 4 scheduled tasks, seeded API/size/buffer/compression configuration swarm, reference RFC 6455/7692 parser on the recorded wire",
+   text="Seeded search over message sequences x write API x read API x role x compression negotiation/level/toggling x buffer sizes x subprotocols x transport segmentation x schedules. Oracles: per direction the received (type, payload) sequence equals the written one; every byte after the handshake parses under an independent strict RFC 6455/7692 frame parser (opcode, FIN/continuation sequencing, masking by role, minimal length form, control-frame rules, RSV1 only on the first frame of a compressed message, inflate reproduces the payload); handshake lines re-derived independently (101, Sec-WebSocket-Accept, extension/subprotocol only if offered). Sampling, not proof.",
+   note="Trusted: reference frame parser/inflater (ref/ws.go, compress/flate), net/http for parsing the recorded handshake.")
 def main():
     import os
     extra = {}
